@@ -138,10 +138,10 @@ def _run_checks_contract(target, raise_classes, escaping=(), name="RunChecks", s
     return RC
 
 
-ArrayRunChecks = _run_checks_contract(f"{ARR}.run_checks.__wrapped__", [OtherException, SchemaError, SchemaDefinitionError], name="ArrayRunChecks")
-ColumnRunChecks = _run_checks_contract(f"{COL}.run_checks", [OtherException, SchemaError, SchemaDefinitionError], name="ColumnRunChecks",
+ArrayRunChecks = _run_checks_contract(f"{ARR}.run_checks.<unwrap>", [OtherException, SchemaError, SchemaDefinitionError], name="ArrayRunChecks")
+ColumnRunChecks = _run_checks_contract(f"{COL}.run_checks.<unwrap>", [OtherException, SchemaError, SchemaDefinitionError], name="ColumnRunChecks",
                                        schema_error_reason=SchemaErrorReason.DATAFRAME_CHECK)
-ContainerRunChecks = _run_checks_contract(f"{DF}.run_checks", [OtherException, SchemaError, SchemaDefinitionError], escaping=(SchemaDefinitionError,),
+ContainerRunChecks = _run_checks_contract(f"{DF}.run_checks.<unwrap>", [OtherException, SchemaError, SchemaDefinitionError], escaping=(SchemaDefinitionError,),
                                           name="ContainerRunChecks")
 
 
